@@ -93,3 +93,18 @@ PROPS["C10"] = simple(
                "least four consecutive empty pages follow. Small layouts are enumerated completely, larger ones sampled.",
     level_note="Trusted: the reference walk in harness/verifchk/c10. A cut at >3 consecutive empty pages is treated as permitted, not required. Zero-size requests are allowed to make no progress.",
 )
+
+PROPS["C11"] = simple(
+    "verifchk/c11", "TestVerifC11", "exploration",
+    "Splicer built (package-internal shim) over synthetic paged sources whose items have unique ids s<i>.<j>. Enumerated: all sets of 1..3 sources with "
+    "0..2 (quick) / 0..3 (thorough) items each and timestamps in {missing,1,2,3}, constant request sizes 1..4, first start offset 0..2. PRNG: 0..5 sources, "
+    "0..12 items, sorted / unsorted / equal / missing timestamps, sources ending in an error item, nil pages, request sizes from {0,1,2,3,4,5,6,11}, start "
+    "offsets 0..3. Every position is harvested twice. Non-trivial: every case; distinct = (sources, nil pages, requests, start).",
+    shards=dict(quick=8, thorough=16),
+    floor=dict(evaluations=20000, distinct=5000, harvest_calls=40000),
+    technique="runtime monitor: delivered unique ids compared with a reference head-merge; same-position replay; end-of-feed probe",
+    level_text="The ids delivered by successive Harvest calls are compared with a reference merge (strictly latest head, first source wins ties) computed from the "
+               "sources' specification; each feed position is asked twice and must answer identically; at exhaustion the continuation must be nil or harmless "
+               "(harvesting it returns nothing and does not panic). Small scopes enumerated, larger ones sampled.",
+    level_note="Trusted: the reference merge and the synthetic source in harness/verifchk/c11; the shim harness/splicer/verif_shim.go only fills the three fields NewSplicer fills.",
+)
